@@ -28,6 +28,7 @@ from pdfminer.high_level import extract_text  # noqa: E402
 from pdfminer.pdfdocument import PDFDocument, PDFNoValidXRef, PDFObjectNotFound, PDFXRefStream  # noqa: E402
 from pdfminer.pdfparser import PDFParser  # noqa: E402
 from pdfminer.psparser import PSBaseParser  # noqa: E402
+from pdfminer.pdftypes import PDFStream  # noqa: E402
 
 SPEC = os.path.join(SPECS, "xref", "MC_XRef.tla")
 REV_SPEC = os.path.join(SPECS, "xref", "MC_RevLines.tla")
@@ -64,6 +65,7 @@ def realise(hist, eol=b"\n", xref_w=(1, 4, 2), zero_type_width=False):
                              trailer_style=int(zero_type_width),
                              # ... and how cross-reference and object streams are packed, and whether the objects a
                              # later revision redefines carry generation 1 (a reused free entry)
+                             hybrid_free=(int(zero_type_width) == 1),
                              xref_pack=["flate", "pngmix" if len(hist) % 2 else "png", "none"][int(zero_type_width)],
                              objstm_pack=["flate", "none", "hex"][int(zero_type_width)],
                              gens={p + 2: 1 for p in r["defs"] if p not in r["packed"]} if (zero_type_width == 1 and k > 1) else None,
@@ -226,7 +228,8 @@ def text_doc(nobj, eol, seed):
     objs = {1: {"Type": Name("Catalog"), "Pages": Ref(2)}, 2: {"Type": Name("Pages"), "Kids": [Ref(3)], "Count": 1},
             3: {"Type": Name("Page"), "Parent": Ref(2), "MediaBox": [0, 0, 300, 300], "Resources": {"Font": {"F1": Ref(5)}}, "Contents": Ref(4)},
             # the payload's last line matters and, in two of three documents, `endstream` follows it without an end-of-line
-            4: Stream({}, b"BT /F1 12 Tf 20 200 Td (damaged %d) Tj\n0 -14 Td (line two) Tj ET" % seed,
+            # ... and a literal string spanning lines, one of which looks like an object header to a line-by-line scan
+            4: Stream({}, b"BT /F1 12 Tf 20 200 Td (damaged %d) Tj\n0 -14 Td (line two\n1 0 obj\ntrailing) Tj ET" % seed,
                       eol_before_end=[b"\n", b"", b" "][seed % 3]), 5: type1_font()}
     for i in range(nobj):
         objs[6 + i] = {"Obj": i, "Ver": 1, "Pad": "x" * rng.randrange(0, 40)}
@@ -256,6 +259,15 @@ def direction_a3(ck):
                     o = doc.getobj(objid)
                     if isinstance(v, dict) and "Obj" in v and (not isinstance(o, dict) or o.get("Obj") != v["Obj"]):
                         ck.violation("fallback:" + kind, "object %d not found intact by the fallback scan: %r" % (objid, o), rp)
+                    # "scanning the body still finds EVERY object": the catalog, the page tree, the font and the content
+                    # stream too (extraction alone would not tell: it has a second fallback that searches for /Type /Page)
+                    elif isinstance(v, dict) and (not isinstance(o, dict) or set(o) != set(v)):
+                        ck.violation("fallback-object:" + kind, "object %d read back by the fallback scan as %r, written with keys %r"
+                                     % (objid, o, sorted(v)), rp)
+                    # (the scan ignores /Length and takes the payload up to `endstream`: the end-of-line before the keyword
+                    #  belongs to it then - the property asks for the object to be found, not for byte-exact payloads)
+                    elif isinstance(v, Stream) and (not isinstance(o, PDFStream) or o.get_data().rstrip(b"\r\n ") != v.data.rstrip(b"\r\n ")):
+                        ck.violation("fallback-object:" + kind, "stream %d read back by the fallback scan as %r" % (objid, o), rp)
                 t = extract_text(io.BytesIO(d))
                 if t != good:
                     ck.violation("fallback-text:" + kind, "text differs after damage: %r vs %r" % (t, good), rp)
@@ -300,6 +312,8 @@ def record_lookups(data, caching, order_seed, label, maxobj=400, hist=None):
                 ids.append(objid)
             except KeyError:
                 pass
+            except Exception:   # noqa: BLE001 - a section that answers with anything but KeyError does not list the object
+                pass            # either; what that does to the lookups shows in the recorded events and their validation
         sections.append(ids)
     pre = [[k, digest(v[0])] for k, v in doc._cached_objs.items()]
     # wrap get_pos per section
